@@ -1,7 +1,7 @@
 CONSTANTS
-  NReq = 12
-  NOrig = 2
-  MaxDial = 12
+  NReq = 24
+  NOrig = 9
+  MaxDial = 24
   MaxTick = 60
   AsBuilt = {}
   Caps = {TRUE, FALSE}
